@@ -413,6 +413,7 @@ func streamUncompressed(o *Out, rng *rand.Rand, thorough bool, _ []string) {
 			}
 		}
 	}
+	uhistFaultCases(o, rng, thorough, pool)
 	nr := 300
 	if thorough {
 		nr = 5000
